@@ -82,7 +82,7 @@ def gateName (s : DNode) (p : Nat) (f : Frame) : String :=
   match s.ifaces[p]? with
   | none => "noport"
   | some i =>
-    match ifaceRx s.kind i f with
+    match ifaceRx s.kind s.ifaces i f with
     | .disabled => "disabled" | .ttlExpired => "ttl" | .notAddressed => "notaddressed" | .up _ => "up"
 
 def aclTrace (s s' : DNode) (f : Frame) : String :=
@@ -147,7 +147,7 @@ def step (s : DNode) : List String → DNode × String
       let soft := stub (totalHits s0) fwd nic reply
       let (s', sent) := collect (nodeRx soft s0 p f)
       let raised := s0.kind == .router && (match s0.ifaces[p]? with
-                      | some i => (match ifaceRx s0.kind i f with
+                      | some i => (match ifaceRx s0.kind s0.ifaces i f with
                                    | .up f' => s0.on && (subjectToAcl f').isNone | _ => false)
                       | none => false)
       let line := s!"gate={gateName s0 p f} acls={aclTrace s0 s' f} events={",".intercalate s'.sw.log}" ++
